@@ -14,7 +14,7 @@ import sys
 sys.path.insert(0, os.path.dirname(__file__))
 from coqfmt import *  # noqa
 
-ATOM_RE = r'([1-9][0-9]{0,2})?([A-IK-PR-Zacnopsbt][a-ik-pr-vy]?)(@@|@)?(H[1-4]?)?([+-][1-4+-]?)?(:[0-9]{1,4})?'
+ATOM_RE = r'([1-9][0-9]{0,2})?([A-IK-PR-Zacnopsbt][a-ik-pr-vy]?)(@@|@)?(H[1-4]?)?([+-][1-4+-]?)?(:[0-9]+)?'
 CLASSES = ['=#:-~', '\\/', 'NOPSFI', 'cnopsb', 'CB']
 AROMATIC_BRACKET = ('c', 'n', 'o', 'p', 's', 'as', 'se', 'b', 'te')
 
